@@ -98,7 +98,13 @@ impl Schur {
                 }),
             // whether or not they are returned, the eliminating maps exist (this is what a caller needs to see that S inherits d d = 0)
             exists|ft: int, bs: int| #[trigger] elim_maps(abcd.m@, res.s.m@, r as int, ft, bs)
-                && (with_trans ==> (ft == res.t_tgt.unwrap().f@ && bs == res.t_src.unwrap().b@)),
+                && (with_trans ==> (ft == res.t_tgt.unwrap().f@ && bs == res.t_src.unwrap().b@
+                    && res.t_src.unwrap().f@ == mconcat(mzero(nc(abcd.m@) - r, r as int), mid(nc(abcd.m@) - r))       // f_src = [0 | I]
+                    && res.t_tgt.unwrap().b@ == mstack(mzero(r as int, nr(abcd.m@) - r), mid(nr(abcd.m@) - r))))       // b_tgt = [0 ; I]
+                // and their block form: ft = [-c a^-1 | I], bs = [-a^-1 b ; I]
+                && exists|a: int, b: int, c: int, d: int| #![trigger mstack(mconcat(a, b), mconcat(c, d))]
+                    abcd.m@ == mstack(mconcat(a, b), mconcat(c, d)) && block_dims(a, b, c, d, r as int, nr(abcd.m@), nc(abcd.m@)) && tri_ok(t, a)
+                    && ft == mconcat(mneg(mmul(c, minv(a))), mid(nr(abcd.m@) - r)) && bs == mstack(mneg(mmul(minv(a), b)), mid(nc(abcd.m@) - r)),
     //@body impl/Schur/from_partial_triangular for_iter=1 arr_own=1 ring=1 machine=n,m,r,k,i q=ainvb,solve_triangular_left qname=q subst=SpMat:SpMat,R:ER
     //@+ after-let-raw ainvb
     //@| let ghost (ga, gb, gc, gd, gx) = (a.m@, b.m@, c.m@, d.m@, ainvb.m@);
@@ -132,6 +138,8 @@ impl Schur {
     //@| assert(nr(abcd.m@) == m && nc(abcd.m@) == n);
     //@| if with_trans { assert(__ret.t_tgt.unwrap().f@ == ft0); }
     //@| assert(elim_maps(abcd.m@, __ret.s.m@, r as int, ft0, bs0));
+    //@| assert(block_dims(ga, gb, gc, gd, r as int, nr(abcd.m@), nc(abcd.m@)));
+    //@| assert(abcd.m@ == mstack(mconcat(ga, gb), mconcat(gc, gd)) && ft0 == mconcat(mneg(mmul(gc, minv(ga))), mid(nr(abcd.m@) - r)) && bs0 == mstack(mneg(mmul(minv(ga), gb)), mid(nc(abcd.m@) - r)));
     //@+ closure 0 typed
     //@| n: usize
     //@+ closure 0
